@@ -925,3 +925,30 @@ def tokScan : Str → Bool
 def tokenCtor (s : Str) : Option Str := if tokScan (collapse s) then some (collapse s) else none
 
 end EPV.Lex
+
+/-! ## xs:anyURI (datatypes/uri.py) relative to `urllib.parse.urlparse`
+
+`AnyURI.__init__`: `collapse_white_spaces`, then `validate`: `urlparse(value)` and `.port` (standard library — here an
+*oracle*: whether it raised `ValueError`, and the `path` component it returned), then three checks of the library itself. -/
+namespace EPV.Lex
+
+/-- `Patterns.wrong_escape = %(?![a-fA-F\d]{2})` searched in the string; `\d` is ASCII-or-Unicode decimal digit in a `str`
+pattern — the model takes the hexadecimal digits of ASCII, the harness compares on every case -/
+def twoHex : Str → Bool
+  | a :: b :: _ => isHexDigit a && isHexDigit b
+  | _ => false
+
+def wrongEscape : Str → Bool
+  | [] => false
+  | c :: r => (c == '%' && !twoHex r) || wrongEscape r
+
+/-- the result: the collapsed string, or `ValueError` -/
+def anyUriCtor (urlparseFails : Bool) (path : Str) (s : Str) : Option Str :=
+  let v := collapse s
+  if urlparseFails then none
+  else if path.head? == some ':' then none
+  else if v.count '#' > 1 then none
+  else if wrongEscape v then none
+  else some v
+
+end EPV.Lex
